@@ -111,6 +111,12 @@ func H_C16_sched_phase_deep() { vfSchedPhase(nondetRange(0, 1) == 1, nondetRange
 
 // vfFrameCheck asserts the framing relations of one phased sequence against its input.
 func vfFrameCheck(ph PhasedSequence, input []uint8, reverse bool, translate bool) {
+	vfFrameCheckCode(ph, input, reverse, translate, GENETIC_CODE_STANDARD)
+}
+
+// vfFrameCheckCode: as vfFrameCheck; the amino-acid sequence, when one is reported (always in
+// translated mode), is the translation of the codon sequence under the configured genetic code.
+func vfFrameCheckCode(ph PhasedSequence, input []uint8, reverse bool, translate bool, code int) {
 	nt := ph.NtSeq.SequenceChar()
 	pos := ph.Position
 	verifAssert(pos >= 0 && pos <= len(input), "position inside the input")
@@ -138,9 +144,10 @@ func vfFrameCheck(ph PhasedSequence, input []uint8, reverse bool, translate bool
 	for k := 0; k < len(codon); k++ {
 		verifAssert(codon[k] == nt[k+d], "codon sequence is a suffix of the trimmed nucleotides")
 	}
-	if translate && len(codon) >= 3 {
+	verifAssert(!translate || ph.AaSeq != nil, "translated mode reports an amino-acid sequence")
+	if ph.AaSeq != nil && len(codon) >= 3 {
 		aa := ph.AaSeq.SequenceChar()
-		tr, err := NewSequence("x", codon, "").Translate(0, GENETIC_CODE_STANDARD)
+		tr, err := NewSequence("x", codon, "").Translate(0, code)
 		verifAssert(err == nil, "codon sequence translates")
 		trc := tr.SequenceChar()
 		verifAssert(len(aa) == len(trc), "amino-acid sequence has the length of the translated codon sequence")
@@ -349,4 +356,75 @@ func H_C16_noref_inputs_kept() {
 //verif: race=1
 func H_C16_workers_exceed() {
 	vfSchedPhase(nondetBool(), nondetRange(1, 5))
+}
+
+// H_C16_frame_codes: under each genetic code, in nucleotide and in translated mode, the reported amino-acid sequence is the translation of the reported codon sequence under THAT code.
+// bounds: reference ORF ATGATAGAA (ATA: I in the standard code, M in both mitochondrial codes); input = the ORF with one symbolic substitution over {A,C,G,T} at any position (so TGA, AGA, AGG, ATA variants occur); the three genetic codes; translate on/off; reverse off, 1 worker
+// outside: longer inputs, flanks (H_C16_frame_nt/_aa), reverse strand
+func H_C16_frame_codes() {
+	code := nondetRange(GENETIC_CODE_STANDARD, GENETIC_CODE_INVETEBRATE_MITO)
+	translate := nondetBool()
+	k := nondetRange(0, 8)
+	in := []uint8("ATGATAGAA")
+	c := nondetByte()
+	assume(vfIsACGT(c))
+	in[k] = c
+	seqs := NewSeqBag(NUCLEOTIDS)
+	seqs.AddSequenceChar("s0", append([]uint8{}, in...), "")
+	ph := NewPhaser()
+	ph.SetCpus(1)
+	verifAssert(ph.SetTranslate(translate, code) == nil, "genetic code accepted")
+	ch, err := ph.Phase(vfBag(NUCLEOTIDS, "ATGATAGAA"), seqs)
+	verifAssert(err == nil, "no error")
+	n := 0
+	for r := range ch {
+		n++
+		if r.Err == nil {
+			verifReach("framed")
+			vfFrameCheckCode(r, in, false, translate, code)
+		}
+	}
+	verifAssert(n == 1, "exactly one result")
+}
+
+// H_C16_longest_orf_bag: without reference, the ORF taken from a sequence set is a longest ATG-to-first-in-frame-stop frame over all sequences, and over both strands when allowed: no sequence (or reverse complement) contains a longer one.
+// bounds: two sequences: ATGAAATAATTACAT (a 9-nt ORF forward, a 6-nt one on the reverse strand) and CCATGTAGCC, one base of one of them (any position) replaced by a symbolic base over {A,C,G,T}; reverse on/off
+// outside: longer sequences, several symbolic bases (sequence level: H_C16_longest_orf)
+func H_C16_longest_orf_bag() {
+	in := [][]uint8{[]uint8("ATGAAATAATTACAT"), []uint8("CCATGTAGCC")}
+	w := nondetRange(0, 1)
+	p := nondetRange(0, len(in[w])-1)
+	c := nondetByte()
+	assume(vfIsACGT(c))
+	in[w][p] = c
+	reverse := nondetBool()
+	sb := NewSeqBag(NUCLEOTIDS)
+	best := 0
+	for i := range in {
+		sb.AddSequenceChar(vfNames[i], append([]uint8{}, in[i]...), "")
+		best = vfMaxI(best, vfLongestFrame(in[i]))
+		if reverse {
+			rc := make([]uint8, len(in[i]))
+			for k := range rc {
+				rc[k] = vfRefComplement(in[i][len(rc)-1-k])
+			}
+			best = vfMaxI(best, vfLongestFrame(rc))
+		}
+	}
+	orf, err := sb.LongestORF(reverse)
+	verifReach("searched")
+	if best == 0 {
+		verifAssert(err != nil, "no ORF anywhere: error")
+		return
+	}
+	verifReach("orf exists")
+	verifAssert(err == nil && orf != nil, "an ORF exists: no error")
+	verifAssert(orf.Length() == best, "the ORF returned is as long as the longest ATG-to-first-stop frame of any sequence (either strand when allowed)")
+}
+
+func vfMaxI(a, b int) int {
+	if a > b {
+		return a
+	}
+	return b
 }
